@@ -33,7 +33,8 @@ FR = {
              "num": "0", "hi": "\xff", "comma": ",", "y9999": "Fri, 31 Dec 9999 23:59:59 -0100", "y9999b": "Fri, 31 Dec 9999 12:00:00 -2359",
              "y1": "Mon, 01 Jan 0001 00:00:00 +0100", "bigzone": "Tue, 15 Nov 1994 08:12:31 +99999999999999999999",
              "hugeyear": "Tue, 15 Nov 19940000000000000000000 08:12:31 GMT", "bigsec": "Tue, 15 Nov 1994 08:12:99999999999999999999 GMT"},
-    "referer": {"url": "http://ex.com/a", "br": "http://[", "hi": "\xff", "sp": " ", "port": ":99999", "at": "@", "br6": "http://[::1", "uni": "é"},
+    "referer": {"url": "http://ex.com/a", "br": "http://[", "hi": "\xff", "sp": " ", "port": ":99999", "at": "@", "br6": "http://[::1", "uni": "é", "badport": "http://example.com:x/",
+                "userbadport": "http://a:b@c:d/", "bigport": "http://h:99999/"},
     "range": {"unit": "bytes=", "r": "0-1", "suf": "-1", "from": "1-", "comma": ",", "big": BIG + "-", "bigsuf": "-" + BIG, "junk": "x", "eq": "=",
               "uni": "٣-٤", "sp": " "},
     "ifrange": {"etag": '"abc"', "date": "Wed, 21 Oct 2015 07:28:00 GMT", "junk": "x", "hi": "\xff", "w": "W/"},
@@ -94,13 +95,15 @@ class World:
         }
 
 
-def run_case(world, iface, channel, entry, raw, body=None):
+def run_case(world, iface, channel, entry, raw, body=None, host=None):
     """apply the entry point to the value on one interface; returns (class, detail)"""
     p = recipes.pkg(iface)
     kw = {"headers": []}
     given_body, body = body, b""
     if channel == "path":
         kw["path"] = raw if raw.startswith("/") or entry == "url" else "/" + raw
+        if host is not None:
+            kw["headers"] = [("Host", host)]
     elif channel == "query":
         kw["query"] = raw
     elif channel == "body":
@@ -138,7 +141,7 @@ def run_case(world, iface, channel, entry, raw, body=None):
             if iface == "wsgi":
                 r = p.Request(env)
                 v = getattr(r, accessor)
-                if accessor == "url":
+                if accessor == "url" or (accessor == "referrer" and v is not None):
                     str(v), v.path, v.query, v.port, v.hostname, v.netloc, v.username, v.password, repr(v)
                 if accessor == "accepted_types":
                     r.accepts("text/html")
@@ -156,7 +159,7 @@ def run_case(world, iface, channel, entry, raw, body=None):
                     v = getattr(r, accessor)
                     if hasattr(v, "__await__"):
                         v = await v
-                    if accessor == "url":
+                    if accessor == "url" or (accessor == "referrer" and v is not None):
                         str(v), v.path, v.query, v.port, v.hostname, v.netloc, v.username, v.password, repr(v)
                     if accessor == "accepted_types":
                         r.accepts("text/html")
@@ -224,6 +227,26 @@ def run(ctx):
                 ctx.nontriv((ch, entry, st["value"]))
             if n in (10, 4000):
                 ctx.sample({"channel": ch, "entry": entry, "fragments": list(st["value"])})
+        # two channels at once: request path x Host header through the applications that build URLs from both (redirects, mounts)
+        xpaths = ["//[/../sub", "/[/../sub", "//]/../sub", "//[zz]/../sub", "/sub", "//sub", "/sub/..", "///sub", "/%5B/../sub", "//\uff03/../sub", "/sub?x", "/sub#f",
+                  "//[::1]/../sub", "/a/../sub", "//@/../sub", "//:80/../sub", "/\\/../sub"]
+        xhosts = [None, "", "/", "[", "]", "a:b", "@", ":80@", "]:[::1]@", "]:x[::1]@:80", "example.com", "[::1]:80", "\uff03", "a b", "?", "#"]
+        for xp in xpaths:
+            for xh in xhosts:
+                for entry in ("pages", "files", "mount", "router", "url"):
+                    for iface in ("wsgi", "asgi"):
+                        cls, detail = run_case(world, iface, "path", entry, xp, host=xh)
+                        if cls == "skip":
+                            continue
+                        ctx.count()
+                        if cls == "escape":
+                            key = ("path+host", entry, iface, detail)
+                            seen_escape[key] = seen_escape.get(key, 0) + 1
+                            if seen_escape[key] <= 2:
+                                ctx.violation({"channel": "path+host", "entry": entry, "iface": iface, "path": xp, "host": xh},
+                                              "a value, an HTTP 4xx, client-disconnect or stream-consumed", detail,
+                                              "path %r with Host %r via %s (%s): %s escapes" % (xp, xh, entry, iface, detail))
+            ctx.nontriv(("path+host", xp))
         # every codec name Python knows, declared as the charset of a JSON / urlencoded / multipart body
         import encodings.aliases
         codecs_ = sorted(set(encodings.aliases.aliases.values()) | set(encodings.aliases.aliases) | {"undefined", "punycode", "idna", "raw_unicode_escape", "unicode_escape", "utf-8-sig", "utf_8_sig", "x", ""})
